@@ -12,9 +12,9 @@ import (
 // the region aborts the speculation and the caller forks as usual.
 
 type mergeEdge struct {
-	pred *ssa.BasicBlock
-	cond *term.Term
-	ret  Value
+	pred  *ssa.BasicBlock
+	cond  *term.Term
+	ret   Value
 	isRet bool
 }
 
